@@ -19,7 +19,7 @@ def load(pid=None):
         ln = ln.strip()
         if not ln.startswith('finding:'):
             continue
-        body, _, what = ln[len('finding:'):].partition('::')
+        body, _, what = ln[len('finding:'):].partition(' :: ')
         kv = dict(w.split('=', 1) for w in body.split() if '=' in w)
         kv['what'] = what.strip()
         if pid is None or kv.get('property') == pid:
